@@ -348,6 +348,15 @@ class SimBackend(object):
                'timeLimit': tl}
         self.rounds.append(rec)
         fault = self._active_fault()
+        if fault is not None and fault['kind'].startswith('tl-') and \
+                tl is None:
+            # the repository gave the back end no time limit, so the back end
+            # cannot stop on one: the planned fault does not apply
+            rec['fault_not_applicable'] = fault['kind']
+            self.fired['tl-fault-not-applicable(no limit passed)'] = \
+                self.fired.get('tl-fault-not-applicable(no limit passed)',
+                               0) + 1
+            fault = None
 
         if self.policy == 'real' and fault is None:
             return self._real(solver, lp, rec, kw)
